@@ -43,10 +43,10 @@ PROPS = {
         "technique": "Lean 4 theorems (parser accepts iff grammar decomposition exists; stored text = longest matched prefix; error kinds) + hash-exhaustive 1-edit neighbourhood correspondence + independent offset-based shape oracle",
         "level_text": "Proved in Lean for all byte strings: MessageHeader::new (model) accepts iff the text is ASCII and begins with ZCZC-ORG-EEE(-PSSCCC)+ +TTTT-JJJHHMM-CALLSIGN-; the stored text is exactly the matched prefix, is the LONGEST header-shaped prefix (greedy callsign), the time offset is the position of '+'; "
                       "rejections are NotAscii iff non-ASCII, Malformed otherwise, never another kind. The model (a hand-rolled matcher for the regex) is tied to the real regex/accessors on the complete 1-edit neighbourhood (131 symbols incl. multi-byte UTF-8, substitute/insert/delete at every position) of grammar-generated seeds by hash, "
-                      "plus sampled 2-3-edit and unstructured inputs; every individually listed answer (constructor result, every accessor, re-parse, byte-slice dispatch) is also judged by an independent offset-based Lean oracle.",
-        "level_note": "Accessor-equals-field and panic-freedom of accessors are currently established by correspondence + oracle on every sampled input (the model has explicit Panic branches and none was ever taken), not yet by theorem; regex crate semantics are modelled, not verified.",
+                      "plus sampled 2-3-edit and unstructured inputs; every individually listed answer (constructor result, every accessor including the originator class and the national flag, re-parse, byte-slice dispatch) is also judged by an independent offset-based Lean oracle.",
+        "level_note": "Accessor-equals-field (originator_str, event_str, callsign, locations, duration, issue time AND the interpreting accessors originator(), event(), is_national()), panic-freedom of every accessor, re-parse identity and the no-line-feed fact are theorems about the model (Thm/C06 accessors, accessors_total, sem_accessors_total, originator_class, national_flag, reparse); the regex crate's semantics are modelled (checkHeader), not verified, and tied differentially.",
         "rule": "seeds: grammar-generated headers with every location count 1..31 and 32, callsign length 3..8 (some with '-' inside), 6 kinds of trailing bytes; per seed the complete 1-edit neighbourhood at every position (stride 3 for seeds > 80 bytes in quick) as one hash request per position; "
-                "150-300 sampled 2-3-edit variants per seed; unstructured strings over 3 alphabets; msg3/msgstr dispatch requests incl. invalid UTF-8. Non-trivial = non-empty input; distinct by request text. counters.neighbourhood_strings_hashed is the number of strings inside hash requests.",
+                "150-300 sampled 2-3-edit variants per seed; unstructured strings over 3 alphabets; 600 (quick) / 8000 (thorough) directed field-semantics headers (WXR with callsigns around the EC/ marker at the start, inside, at the end, lower-case; sole/double/mixed 000000 locations with national and near-national event codes; counters field_semantics:*); msg3/msgstr dispatch requests incl. invalid UTF-8. Non-trivial = non-empty input; distinct by request text. counters.neighbourhood_strings_hashed is the number of strings inside hash requests.",
         "exhaustive": False,
         "exhaustive_note": "each hdrnbhd request enumerates its neighbourhood completely on both sides; the set of seeds is sampled",
         "assumptions": ["regex crate leftmost-first semantics is modelled by checkHeader; tie is differential (neighbourhood-exhaustive around seeds)"],
